@@ -21,4 +21,5 @@ def run(tier, replay=None):
     ck.add_run(res)
     ck.handle_violations(res, rp, env=env)
     cross_solver(ck, mod, hp, "slice", "^Harness_C13_(Sort|Filter|Scans|Fold)$", env=env)
+    engine_selftest(ck)
     return ck.finish()
